@@ -278,6 +278,57 @@ def same_name_delegation(chk, db):
         chk.analysis_broken("DELEG: only %d search/compare members found (floor 40)" % n)
 
 
+def clamp_rule(chk, db):
+    """CLAMP: a length clamp `n > R.size() - p ? X : n` measures one object: the replacement X is a size of the same receiver
+    R whose remaining length the test measured (the substring [p, p+n) of `str` is clamped with str.size(), not with size())."""
+    n = 0
+    for f in db.funcs:
+        if f.get("record") != STRING or f.get("body") is None:
+            continue
+        for x in astx.all_exprs(f):
+            if x.get("k") != "cond":
+                continue
+            c = astx.strip_casts(x["c"])
+            if c is None or c.get("k") != "bin" or c["op"] not in (">", ">=", "<", "<="):
+                continue
+            sides = [astx.strip_casts(c["l"]), astx.strip_casts(c["r"])]
+            var = [s0 for s0 in sides if s0 is not None and s0.get("k") == "ref"]
+            rem = [s0 for s0 in sides if s0 is not None and s0.get("k") == "bin" and s0["op"] == "-"]
+            if len(var) != 1 or len(rem) != 1:
+                continue
+
+            def size_recv(e):
+                e = astx.strip_casts(e)
+                if e is not None and e.get("k") == "call" and astx.callee(e)[0] in ("size", "length") and astx.callee(e)[3] == "member":
+                    r = astx.strip_casts(astx.callee(e)[2])
+                    return "this" if astx.is_this(r) else (r.get("n") if r is not None and r.get("k") == "ref" else astx.show(r, 30))
+                return None
+            measured = size_recv(rem[0]["l"])
+            if measured is None:
+                continue
+            arms = [astx.strip_casts(x["t"]), astx.strip_casts(x["f"])]
+            keep = [a for a in arms if a is not None and a.get("k") == "ref" and a.get("n") == var[0]["n"]]
+            other = [a for a in arms if a not in keep]
+            if len(keep) != 1 or len(other) != 1:
+                continue
+            repl = other[0]
+            rr = size_recv(repl)
+            if rr is None and repl is not None and repl.get("k") == "bin" and repl["op"] == "-":
+                rr = size_recv(repl["l"])
+            if rr is None:
+                continue
+            n += 1
+            construct = "%s :: %s" % (astx.sig(f), astx.show(x, 70))
+            chk.instance("CLAMP")
+            ok = rr == measured
+            chk.obligation("CLAMP", construct, ok)
+            if not ok:
+                chk.violation("CLAMP", construct, "clamp-other-object", "%s: the test measures what is left of `%s` but the length is replaced by the "
+                              "size of `%s`" % (astx.loc(f, x), measured, rr), {"where": astx.loc(f)})
+    if n < 4:
+        chk.analysis_broken("CLAMP: only %d length clamps found in basic_inplace_string (floor 4)" % n)
+
+
 def run(chk, tier):
     db = D.load("checks")
     plain = D.load("plain")
@@ -290,6 +341,7 @@ def run(chk, tier):
     if chk.rule_instances.get("SLOTS-W", 0) < 4:
         chk.analysis_broken("SLOTS-W: only %d growing size stores found in basic_inplace_string (floor 4)" % chk.rule_instances.get("SLOTS-W", 0))
     same_name_delegation(chk, db)
+    clamp_rule(chk, db)
     # NULFREE: counted operations never reach a routine that stops at a null character (embedded nulls are characters)
     c08.nulfree_rule(chk, db, STRING, 100)
     nrel = rel.check(chk, db, ["_string/basic_inplace_string.hpp"])
